@@ -6,13 +6,13 @@ CFG = {
     "exe": "aqmodel_c16",
     "harness": "c16",
     "gen": ["bloom"],
-    "overlay": ["core/bloombits/c16_access.go", "aqua/filters/c16_access.go"],
+    "overlay": ["core/bloombits/c16_access.go", "aqua/filters/c16_access.go", "aqua/c16_access.go"],
     "trivial_outputs": ["-", "false", "err8", "generr", "hang", "panic", "err"],
     "timeout": {"quick": 900, "thorough": 3600},
     "rule": "one case = one call of the real code on a generated input, answered independently by the Lean model (own Keccak): "
             "bloom9/calcBloomIndexes of items (0-40 bytes, pool addresses/topics incl. items whose bloom indexes coincide and items with leading zero bytes), CreateBloom of receipt sets (0-3 receipts x 0-3 logs x 0-4 topics), "
             "BloomLookup incl. near misses (one bit of the item cleared), bloomFilter/filterLogs under criteria (address lists, positional "
-            "alternatives, wildcards, up to 5 positions, duplicates), Generator sessions (section sizes 0..4096 incl. non-multiples of 8 and "
+            "alternatives, wildcards, up to 5 positions, duplicates; the all-zero address/topic as ordinary values in logs and criteria), Generator sessions (section sizes 0..4096 incl. non-multiples of 8 and "
             "sizes below 2048, partial fill, overflow, wrong index, Bitset at 0/7/8/2047/2048/size+-1), Matcher sessions over raw blooms with an "
             "in-memory bit-vector server that drops deliveries (filters with nil clauses, empty groups, odd-length clauses; begin>end; section "
             "edges), and filters.Filter.Logs over chains built with core.GenerateChain (+receipts, bloom-bits index committed with the real "
@@ -25,7 +25,7 @@ CFG = {
             "bloombits.Generator NewGenerator/AddBloom/Bitset": "corr (sessions) + direct transposition judgement; limits regenerated (T-gen bloom)",
             "bloombits.Matcher (NewMatcher, Start, run, subMatch, distributor, MatcherSession.*), scheduler": "corr on the session's input/output function only (goroutine pipeline not modelled)",
             "filters.New, Filter.Logs/indexedLogs/unindexedLogs/checkMatches": "corr + direct judgement vs brute force",
-            "aqua.BloomIndexer Process/Commit, aqua.startBloomHandlers": "replicated in the harness (package aqua links cgo duktape) exactly as written: Generator + core.WriteBloomBits(.., bitutil.CompressBytes(bits)) / core.GetBloomBits + bitutil.DecompressBytes(comp, size/8)",
+            "aqua.NewBloomIndexer, aqua.BloomIndexer Reset/Process/Commit, aqua.startBloomHandlers, AquaApiBackend.BloomStatus/ServiceFilter": "the REAL code (package aqua linked, overlay accessor aqua/c16_access.go): hook-based mid-section reorg over the real backend, and index section -> reorg inside it -> re-index -> Filter.Logs through the node's own constructor, retrieval handlers and API backend; the plain generated chains still use a harness replica of Commit/retrieval (any section size)",
             "bitutil.CompressBytes/DecompressBytes (bitsetEncodeBytes, bitsetDecodePartialBytes)": "corr (cases cz, dz incl. malformed encodings) + direct round-trip judgement around the break-even density; theorems decompress_compress, stored_vectors_roundtrip",
             "core.ChainIndexer (Start/eventLoop/newHead/updateLoop/processSection)": "the real indexer is run with a ChainIndexerBackend that replicates BloomIndexer plus a hook: a reorg lands between two headers of the section walk; Filter.Logs then judged vs brute force over the final canonical chain. processSection's continuity check is modelled (walkSection/processSection; theorem section_commit_requires_contiguous_headers); elsewhere index progress is the parameter `sections` with sections*size <= head+1",
             "types.BloomByteLength/BloomBitLength, params.BloomBitsBlocks(+Client)": "gen (theorems constants_agree, deployed_section_sizes_accepted)"},
